@@ -25,7 +25,7 @@ typedef struct { const char *name; int nthreads; void (*prep)(void); void (*body
 
 /* H1: two mode-6531 validations with IDN conversion, early TLDs (decoder, IDN path, reserved-name buffer, TLD walk) */
 static void h1_prep(void) { for (int t = 0; t < 3; t++) obj_setup(t, 3, 1); }
-static void h1_body(int t) { static const char *const a[3] = { "\xd0\xb6@\xd1\x89.ac", "\xd1\x8f.b@\xd0\xb6\xd0\xb6.ad", "q@\xce\xb1.ae" }; do_email(t, a[t]); }
+static void h1_body(int t) { static const char *const a[3] = { "\xd0\xb6@\xd1\x89.ac", "\xd1\x8f.b@\xd0\xb6\xd0\xb6.aaa", "q@\xce\xb1.abarth" }; do_email(t, a[t]); }   /* three different TLD classes */
 static void free_objs(void) { for (int t = 0; t < 3; t++) eav_free(&OBJ[t]); }
 /* H2: mode 6531 against mode 822 */
 static void h2_prep(void) { obj_setup(0, 3, 1); obj_setup(1, 0, 1); obj_setup(2, 2, 0); }
@@ -34,7 +34,7 @@ static void h2_body(int t) { static const char *const a[3] = { "a@b.ac", "\"q\\\
 static void h3_prep(void) { }
 static void h3_body(int t) { static const char *const d[3] = { "abcdefg.test", "example.com", "website.onion" }; int r = is_special_domain(d[t], d[t] + strlen(d[t])); logf_(t, "[special(%s)=%d]", d[t], r); }
 /* H4: is_tld of first-in-table TLDs */
-static void h4_body(int t) { static const char *const d[3] = { "aaa", "abb", "ac" }; int r = is_tld(d[t], d[t] + strlen(d[t])); logf_(t, "[tld(%s)=%d]", d[t], r); }
+static void h4_body(int t) { static const char *const d[3] = { "aaa", "abarth", "ac" }; int r = is_tld(d[t], d[t] + strlen(d[t])); logf_(t, "[tld(%s)=%d]", d[t], r); }
 /* H5: is_6531_local on ONE shared string */
 static void h5_prep(void) { strcpy(SHARED1, "\xd0\xb6.\"a\\ b\".\xe9\xa6\x99"); add_region(SHARED1, sizeof SHARED1); }
 static void h5_body(int t) { int r = is_6531_local(SHARED1, SHARED1 + strlen(SHARED1)); logf_(t, "[6531local=%d]", r); }
@@ -59,6 +59,11 @@ static void h9_body(int t) {
 static void h10_prep(void) { obj_setup(0, 3, 1); obj_setup(1, 3, 1); obj_setup(2, 1, 1); }
 static void h10_body(int t) { do_email(t, t ? "u@x.ad" : "\xd0\xb6@\xd1\x89.ac"); OBJ[t].rfc = RFCS[t]; OBJ[t].allow_tld = 0; eav_setup(&OBJ[t]); do_email(t, "u@x.ac"); }
 
+/* H11/H12: the SAME look-up twice per thread (a memo / cache / lazily built index only misbehaves on the second call) */
+static void h11_body(int t) { static const char *const d[3] = { "aaa", "abarth", "ac" }; for (int k = 0; k < 2; k++) { int r = is_tld(d[t], d[t] + strlen(d[t])); logf_(t, "[tld(%s)=%d]", d[t], r); } }
+static void h12_prep(void) { obj_setup(0, 1, 1); obj_setup(1, 0, 1); obj_setup(2, 3, 1); OBJ[0].allow_tld = OBJ[1].allow_tld = OBJ[2].allow_tld = 0; }
+static void h12_body(int t) { static const char *const a[3] = { "u@h.aaa", "u@h.abarth", "u@example.org" }; do_email(t, a[t]); do_email(t, a[t]); }
+
 static harness_t H[] = {
     { "H1-two-6531-idn-validations", 2, h1_prep, h1_body, free_objs },
     { "H2-6531-vs-822", 2, h2_prep, h2_body, free_objs },
@@ -70,6 +75,8 @@ static harness_t H[] = {
     { "H8-one-shared-address-three-modes", 2, h8_prep, h8_body, free_objs },
     { "H9-part-validators-shared-strings", 2, h8_prep, h9_body, free_objs },
     { "H10-two-ops-per-thread-with-resetup", 2, h10_prep, h10_body, free_objs },
+    { "H11-same-tld-lookup-twice-per-thread", 2, h3_prep, h11_body, NULL },
+    { "H12-same-address-twice-per-thread-different-classes", 2, h12_prep, h12_body, free_objs },
     { "T1-three-threads-reserved-names", 3, h3_prep, h3_body, NULL },
     { "T2-three-threads-is_tld", 3, h3_prep, h4_body, NULL },
     { "T3-three-threads-6531-822-5322", 3, h2_prep, h2_body, free_objs },
